@@ -374,8 +374,9 @@ Definition index_by_pos (position : Z) (l : list hdr) : nat := index_by_pos_from
 Record rres := { rr_ev : list event (* oldest first *); rr_err : rerr; rr_pos : Z; rr_crc : Z }.
 
 (* the loop over files of readAllFromPosition.  [chain] = crc of the log up to and including the levRotateTo that ended the
-   previous file; the repaired reader (fx_chain) requires the next chunk's levRotateFrom.Crc32 to equal it *)
-Fixpoint read_files (fx_rot fx_chain : bool) (umagic : Z) (hs : list hdr) (from : Z) (si : option meta) (eoff ts : Z)
+   previous file; the repaired reader (fx_chain) requires the next chunk's levRotateFrom.Crc32 to equal it.  With fx_eof
+   a chunk that ended at end of file WITHOUT a levRotateTo also hands its final crc to that comparison (F-C18c) *)
+Fixpoint read_files (fx_rot fx_chain fx_eof : bool) (umagic : Z) (hs : list hdr) (from : Z) (si : option meta) (eoff ts : Z)
          (ev : list event) (pos_after crc_after : Z) (chain : option Z) : rres :=
   match hs with
   | [] => {| rr_ev := rev ev; rr_err := ENone; rr_pos := pos_after; rr_crc := crc_after |}
@@ -389,13 +390,14 @@ Fixpoint read_files (fx_rot fx_chain : bool) (umagic : Z) (hs : list hdr) (from 
           let st := {| r_pos := p; r_crc := c; r_ts := t; r_eoff := eoff; r_cpos := 0; r_ev := ev; r_rot := None |} in
           let '(st', e) := read_loop fx_rot umagic (S (length rest)) st rest in
           match e with
-          | ENone => read_files fx_rot fx_chain umagic r 0 None (r_eoff st') (r_ts st') (r_ev st') (r_pos st') (r_crc st') (r_rot st')
+          | ENone => read_files fx_rot fx_chain fx_eof umagic r 0 None (r_eoff st') (r_ts st') (r_ev st') (r_pos st') (r_crc st')
+                       (match r_rot st' with Some c => Some c | None => if fx_eof then Some (r_crc st') else None end)
           | _ => {| rr_ev := rev (r_ev st'); rr_err := e; rr_pos := pos_after; rr_crc := crc_after |}
           end
       end
   end.
 
-Definition replay3 (fx_rot fx_chain fx_hdr : bool) (umagic schema : Z) (files : list bytes) (from : Z) (si : option meta) : rres :=
+Definition replay4 (fx_rot fx_chain fx_eof fx_hdr : bool) (umagic schema : Z) (files : list bytes) (from : Z) (si : option meta) : rres :=
   match scan fx_hdr schema files with
   | inr e => {| rr_ev := []; rr_err := e; rr_pos := 0; rr_crc := 0 |}
   | inl [] => {| rr_ev := []; rr_err := ENotFound; rr_pos := 0; rr_crc := 0 |}
@@ -408,9 +410,10 @@ Definition replay3 (fx_rot fx_chain fx_hdr : bool) (umagic schema : Z) (files : 
                    | Some (mp, mc, mt) => if negb (Nat.eqb (index_by_pos mp all) fi) || (from <? mp) then None else si
                    | None => None
                    end in
-        read_files fx_rot fx_chain umagic (skipn fi all) from si' from 0 [] 0 0 None
+        read_files fx_rot fx_chain fx_eof umagic (skipn fi all) from si' from 0 [] 0 0 None
   end.
 
+Definition replay3 (fx_rot fx_chain fx_hdr : bool) := replay4 fx_rot fx_chain false fx_hdr.
 (* the two halves of the F-C18a repair go together: fx_rot = both checks *)
 Definition replay (fx_rot fx_hdr : bool) (umagic schema : Z) (files : list bytes) (from : Z) (si : option meta) : rres :=
   replay3 fx_rot fx_rot fx_hdr umagic schema files from si.
